@@ -360,6 +360,13 @@ def main():
             r = {"id": case.get("id"), "harness_error": "%s: %s\n%s" % (type(e).__name__, e, traceback.format_exc()[-2000:])}
         r["imageinfo_titles"] = [t for q in r.get("requests", []) if "imageinfo" in (q["p"].get("prop") or "")
                                  for t in q["p"].get("titles", "").split("|")]
+        # continuation rounds: in total, and the most that one query needed (a query = the parameters without the
+        # continuation values)
+        per_query = collections.Counter()
+        for q in r.get("requests", []):
+            if any(k.endswith("continue") for k in q["p"]):
+                per_query[json.dumps(sorted((k, v) for k, v in q["p"].items() if not k.endswith("continue")))] += 1
+        r["cont_rounds"] = [sum(per_query.values()), max(per_query.values(), default=0)]
         if brief:
             # request log reduced to what is needed for statistics (full log only in replays)
             r["requests"] = [[q["m"], q["p"].get("action"), q["p"].get("prop"), "continue" if any(k.endswith("continue") for k in q["p"]) else "",
